@@ -63,7 +63,10 @@ func parent(id, tier string) int {
 		return 2
 	}
 	defer errFile.Close()
-	limit := 25 * time.Minute
+	// (a budget, not a verdict: the quick tier takes 1-3 minutes per check on a
+	// tree where the property holds; a tree that makes call after call hang pays
+	// one watchdog per hang and needs most of this to reach its verdicts)
+	limit := 40 * time.Minute
 	if tier == "thorough" {
 		limit = 3 * time.Hour
 	}
